@@ -26,13 +26,23 @@ ASSUMPTIONS = ['distinct extern declarations carry distinct C++ values, so the c
 SHARDS = {'quick': 8, 'thorough': 16}
 
 
+from collections import Counter  # noqa: E402
+
+INCONCLUSIVE = Counter()
+
+
+def squash(text):
+    """Text without any whitespace (layout tolerant comparison)."""
+    return re.sub(r'\s+', '', text)
+
+
 def cap(n):
     return n[0].upper() + n[1:]
 
 
 def split_params(text):
     text = text.strip()
-    return [p.strip() for p in text.split(',')] if text else []
+    return [re.sub(r'\s+', ' ', p.strip()) for p in text.split(',')] if text else []
 
 
 def expected_params(sm, itf, ev, by_value_all=False):
@@ -68,9 +78,14 @@ def check_uses_right_declaration(case):
             decl = f'{sfns}::Mts<{fq}> ProvidesMultiClient{cap(p["name"])}(const {sfns}::ClientIdentifier& identifier);'
         else:
             decl = f'{sfns}::{wrap}<{fq}> {cap(p["dir"])}{cap(p["name"])}();'
-        if decl not in [l.strip() for l in hdr.split('\n')]:
-            raise Fail(f'port {p["name"]}: accessor declaration `{decl}` not in the header; '
-                       f'reference interface {fq}', 'accessor-type')
+        acc_name = f'ProvidesMultiClient{cap(p["name"])}' if is_mc else f'{cap(p["dir"])}{cap(p["name"])}'
+        found_decl = [squash(l) for l in hdr.split('\n')
+                      if re.search(r'\b' + re.escape(acc_name) + r'\s*\(', l) and '<' in l]
+        if not found_decl:
+            INCONCLUSIVE['accessor-not-found-in-text'] += 1
+        elif squash(decl) not in found_decl:
+            raise Fail(f'port {p["name"]}: accessor declared as {found_decl}, reference says '
+                       f'`{decl}` (interface {fq})', 'accessor-type')
         if sem[p['name']] != 'MTS':
             continue
         member = ('m_pp' if p['dir'] == 'provides' else 'm_rp') + cap(p['name'])
@@ -86,9 +101,13 @@ def check_uses_right_declaration(case):
                 want = expected_params(sm, itf, ev, by_value_all=True)
             else:
                 continue
-            m = re.search(r'^\s*' + re.escape(target) + r' = \[&\](?:\(([^)]*)\))? \{$', src, re.M)
+            m = re.search(r'^\s*' + re.escape(target) + r'\s*=\s*\[[^\]]*\]\s*(?:\(([^)]*)\))?\s*(?:->[^{]*)?\{',
+                          src, re.M)
             if not m:
-                raise Fail(f'no rerouting lambda for {target} in the source file', 'no-lambda')
+                # the generated text is laid out differently: no verdict from the text (the compiled
+                # clause decides through C++ type checking)
+                INCONCLUSIVE['lambda-not-found-in-text'] += 1
+                continue
             got = split_params(m.group(1) or '')
             if got != want:
                 raise Fail(f'{target}: lambda parameters {got}, reference says {want}',
@@ -97,8 +116,12 @@ def check_uses_right_declaration(case):
             claim = [e for e in itf['elem']['events'] if e['name'] == mc['claim']][0]
             enum = lookup(declarations(sm['model']), claim['ret'], itf['fqn'])[0]
             want = f'if (r == ::{"::".join(enum["fqn"])}::{mc["grant"][0]}) {member}.Select(identifier);'
-            if want not in [l.strip() for l in src.split('\n')]:
-                raise Fail(f'granting reply comparison `{want}` not in the source file', 'claim-enum')
+            cmp_lines = [squash(l) for l in src.split('\n') if 'Select(identifier)' in l]
+            if not cmp_lines:
+                INCONCLUSIVE['claim-comparison-not-found-in-text'] += 1
+            elif squash(want) not in cmp_lines:
+                raise Fail(f'granting reply comparison is {cmp_lines}, reference says `{want}`',
+                           'claim-enum')
 
 
 # ---- (b) unrelated same-named declarations never matter
@@ -195,8 +218,37 @@ def reuse_count(sm):
     return len(names) - len(set(names))
 
 
+def check_compiled(case, workdir=None):
+    """Collision-heavy model compiled against a model header in which every declaration is a
+    distinct, non-convertible C++ type: a wrong choice of declaration is a type error; accessor types
+    are static_asserted against the reference lookup."""
+    from vf.cxx import farm
+    from vf.props import c06
+    pr = farm.Project(case['sm'], case['spec'], case['semantics'], workdir)
+    try:
+        try:
+            pr.generate()
+        except Exception as exc:  # pylint: disable=broad-except
+            raise Fail(f'valid model/configuration rejected: {type(exc).__name__}: {exc}',
+                       f'rejected:{type(exc).__name__}') from None
+        try:
+            exe = pr.build_driver()
+        except farm.BuildError as exc:
+            c06.fail_build(exc, 'compiled: shell against distinct C++ types per declaration')
+        imp = int(case['spec']['origin'] == 'IMPORT')
+        script = [f'locator {imp} {imp} 0 0', 'construct inst'] + \
+            (['client A -'] if case['spec'].get('mc') else []) + ['bind -', 'final 0']
+        rc, trace, err = pr.run_driver(exe, script)
+        if rc != 0 or 'final-ok' not in [t.get('what') for t in trace]:
+            raise Fail(f'compiled shell does not construct: exit {rc} {err[:400]}', 'compiled-run')
+    finally:
+        pr.cleanup()
+
+
 def run(ctx):
     base = st.one_of(gen_cfg.model_and_spec(collide=True),
+                     gen_cfg.model_and_spec(collide=True, force=['mirror_ns', 'many_ports',
+                                                                 'partial_spelling']),
                      gen_cfg.model_and_spec(collide=True, force=['partial_spelling', 'deep_ns']),
                      gen_cfg.model_and_spec(collide=True, want_mc=True,
                                             force=['partial_spelling']),
@@ -215,3 +267,18 @@ def run(ctx):
         lambda t: {**t[0], 'fault': t[1], 'pick': t[2]}), check_ref_fault, ctx.n(500, 30000),
         nontrivial=lambda c: apply_ref_fault(c['sm'], c['spec'], c['fault'], c['pick']) is not None,
         labels=lambda c: [c['fault']])
+    for k, v in INCONCLUSIVE.items():
+        ctx.inconclusive[k] += v
+    if ctx.shard is None or ctx.shard[0] == 0:
+        if ctx.replay is not None:
+            if ctx.replay.get('clause') == 'compiled':
+                ctx.clauses_run.append('compiled')
+                ctx._run_one('compiled', check_compiled, ctx.replay['case'])  # pylint: disable=protected-access
+            return
+        from vf.draw import draw_cases
+        from vf.props import c06
+        ctx.clauses_run.append('compiled')
+        cases = draw_cases(base, 10 if ctx.quick else 150, ctx.seed + 5)
+        for c in cases:
+            ctx.record(c, nt(c), ['compiled'] + lab(c))
+        c06.run_cases(ctx, 'compiled', cases, check_compiled)
